@@ -30,6 +30,32 @@ func vfValidPrefix6(s string) bool {
 	return err == nil && p.Addr().Is6() && !p.Addr().Is4In6() && p.Addr().Zone() == ""
 }
 
+// Schema patterns of the leaves the extended payload model covers (oc-inet:ip-address = union of the
+// two address patterns, oc-yang:mac-address); compared with the real pipeline by TestVfModelAgreement.
+const (
+	vfReIP4Src = `^(([0-9]|[1-9][0-9]|1[0-9]{2}|2[0-4][0-9]|25[0-5])(\.([0-9]|[1-9][0-9]|1[0-9]{2}|2[0-4][0-9]|25[0-5])){3})$`
+	vfReIP6Src = `^(([0-9a-fA-F]{1,4}:){7}[0-9a-fA-F]{1,4}|([0-9a-fA-F]{1,4}:){1,7}:|([0-9a-fA-F]{1,4}:){1,6}:[0-9a-fA-F]{1,4}|([0-9a-fA-F]{1,4}:){1,5}(:[0-9a-fA-F]{1,4}){1,2}|([0-9a-fA-F]{1,4}:){1,4}(:[0-9a-fA-F]{1,4}){1,3}|([0-9a-fA-F]{1,4}:){1,3}(:[0-9a-fA-F]{1,4}){1,4}|([0-9a-fA-F]{1,4}:){1,2}(:[0-9a-fA-F]{1,4}){1,5}|[0-9a-fA-F]{1,4}:((:[0-9a-fA-F]{1,4}){1,6})|:((:[0-9a-fA-F]{1,4}){1,7}|:))$`
+	vfReMACSrc = `^[0-9a-fA-F]{2}(:[0-9a-fA-F]{2}){5}$`
+)
+
+// vfReMatch: does s match the pattern?  Engine: intercepted - a concrete s is matched by the host's
+// regexp package against the same pattern; a symbolic s of string kind `kind` matches by construction
+// (kinded symbolic strings are rendered as members of their kind); any other symbolic s is unsupported.
+// (ytypes compiles posix-pattern statements with regexp.CompilePOSIX: ^ and $ match at line boundaries,
+// so a string with a valid LINE is accepted - a quirk of the real pipeline that the model reproduces.)
+func vfReMatch(pattern, s, kind string) bool { return regexp.MustCompilePOSIX(pattern).MatchString(s) }
+
+func vfValidIP(s string) bool {
+	if vfReMatch(vfReIP4Src, s, "ip") {
+		return true
+	}
+	return vfReMatch(vfReIP6Src, s, "ip6")
+}
+func vfValidMAC(s string) bool { return vfReMatch(vfReMACSrc, s, "mac") }
+
+// vfValidLabel: the range the schema gives an MPLS label carried as a number (pushed / popped stacks, label keys).
+func vfValidLabel(v uint64) bool { return vfAnd(v >= 16, v <= 1048575) }
+
 // vfModelUnsupported marks input the models do not cover (engine: path ends inconclusive).
 func vfModelUnsupported(what string) {}
 
@@ -186,7 +212,7 @@ func vfModelCandidateRIB(a *aftpb.Afts) (*aft.RIB, error) {
 				ent.EntryMetadata = append(aft.Binary{}, ie.EntryMetadata.Value...)
 			}
 			if ie.DecapsulateHeader != 0 {
-				vfModelUnsupported("decapsulate header")
+				ent.DecapsulateHeader = aft.E_AftTypes_EncapsulationHeaderType(ie.DecapsulateHeader)
 			}
 		}
 		if nr.Afts.Ipv4Entry == nil {
@@ -216,7 +242,7 @@ func vfModelCandidateRIB(a *aftpb.Afts) (*aft.RIB, error) {
 				ent.EntryMetadata = append(aft.Binary{}, ie.EntryMetadata.Value...)
 			}
 			if ie.DecapsulateHeader != 0 {
-				vfModelUnsupported("decapsulate header")
+				ent.DecapsulateHeader = aft.E_AftTypes_EncapsulationHeaderType(ie.DecapsulateHeader)
 			}
 		}
 		if nr.Afts.Ipv6Entry == nil {
@@ -239,7 +265,7 @@ func vfModelCandidateRIB(a *aftpb.Afts) (*aft.RIB, error) {
 			vfModelUnsupported("enumerated label")
 			return nil, errors.New("unsupported")
 		}
-		if lu.LabelUint64 < 16 || lu.LabelUint64 > 1048575 {
+		if !vfValidLabel(lu.LabelUint64) {
 			return nil, errors.New("label out of range")
 		}
 		key := aft.UnionUint32(uint32(lu.LabelUint64))
@@ -254,8 +280,21 @@ func vfModelCandidateRIB(a *aftpb.Afts) (*aft.RIB, error) {
 			if ie.EntryMetadata != nil {
 				ent.EntryMetadata = append(aft.Binary{}, ie.EntryMetadata.Value...)
 			}
-			if len(ie.PoppedMplsLabelStack) != 0 {
-				vfModelUnsupported("popped label stack")
+			badLabel := false // accumulated branch-free: one decision for the whole stack
+			for _, l := range ie.PoppedMplsLabelStack {
+				if l == nil {
+					vfModelUnsupported("nil element in a repeated field")
+					return nil, errors.New("unsupported")
+				}
+				if l.PoppedMplsLabelStackOpenconfigmplstypesmplslabelenum != 0 {
+					vfModelUnsupported("enumerated popped label")
+					return nil, errors.New("unsupported")
+				}
+				badLabel = vfOr(badLabel, !vfValidLabel(l.PoppedMplsLabelStackUint64))
+				ent.PoppedMplsLabelStack = append(ent.PoppedMplsLabelStack, aft.UnionUint32(uint32(l.PoppedMplsLabelStackUint64)))
+			}
+			if badLabel {
+				return nil, errors.New("popped label out of range")
 			}
 		}
 		if nr.Afts.LabelEntry == nil {
@@ -322,9 +361,65 @@ func vfModelCandidateRIB(a *aftpb.Afts) (*aft.RIB, error) {
 			if n.DecapsulateHeader != 0 {
 				ent.DecapsulateHeader = aft.E_AftTypes_EncapsulationHeaderType(n.DecapsulateHeader)
 			}
-			if n.IpAddress != nil || n.MacAddress != nil || n.InterfaceRef != nil || n.IpInIp != nil || n.Gre != nil ||
-				len(n.EncapHeader) != 0 || len(n.PushedMplsLabelStack) != 0 ||
-				n.TunnelSrcIpAddress != nil || n.VniLabel != nil {
+			if n.IpAddress != nil {
+				if !vfValidIP(n.IpAddress.Value) {
+					return nil, errors.New("invalid ip-address")
+				}
+				ent.IpAddress = vfStrp(n.IpAddress.Value)
+			}
+			if n.MacAddress != nil {
+				if !vfValidMAC(n.MacAddress.Value) {
+					return nil, errors.New("invalid mac-address")
+				}
+				ent.MacAddress = vfStrp(n.MacAddress.Value)
+			}
+			if r := n.InterfaceRef; r != nil && (r.Interface != nil || r.Subinterface != nil) {
+				ir := &aft.Afts_NextHop_InterfaceRef{}
+				if r.Interface != nil {
+					ir.Interface = vfStrp(r.Interface.Value)
+				}
+				if r.Subinterface != nil {
+					if r.Subinterface.Value > 0xffffffff {
+						return nil, errors.New("subinterface does not fit uint32")
+					}
+					u := uint32(r.Subinterface.Value)
+					ir.Subinterface = &u
+				}
+				ent.InterfaceRef = ir
+			}
+			if t := n.IpInIp; t != nil && (t.SrcIp != nil || t.DstIp != nil) {
+				ii := &aft.Afts_NextHop_IpInIp{}
+				if t.SrcIp != nil {
+					if !vfValidIP(t.SrcIp.Value) {
+						return nil, errors.New("invalid ip-in-ip source")
+					}
+					ii.SrcIp = vfStrp(t.SrcIp.Value)
+				}
+				if t.DstIp != nil {
+					if !vfValidIP(t.DstIp.Value) {
+						return nil, errors.New("invalid ip-in-ip destination")
+					}
+					ii.DstIp = vfStrp(t.DstIp.Value)
+				}
+				ent.IpInIp = ii
+			}
+			badLabel := false
+			for _, l := range n.PushedMplsLabelStack {
+				if l == nil {
+					vfModelUnsupported("nil element in a repeated field")
+					return nil, errors.New("unsupported")
+				}
+				if l.PushedMplsLabelStackOpenconfigmplstypesmplslabelenum != 0 {
+					vfModelUnsupported("enumerated pushed label")
+					return nil, errors.New("unsupported")
+				}
+				badLabel = vfOr(badLabel, !vfValidLabel(l.PushedMplsLabelStackUint64))
+				ent.PushedMplsLabelStack = append(ent.PushedMplsLabelStack, aft.UnionUint32(uint32(l.PushedMplsLabelStackUint64)))
+			}
+			if badLabel {
+				return nil, errors.New("pushed label out of range")
+			}
+			if n.Gre != nil || len(n.EncapHeader) != 0 || n.TunnelSrcIpAddress != nil || n.VniLabel != nil {
 				vfModelUnsupported("next-hop payload field outside the model")
 			}
 		}
@@ -366,6 +461,9 @@ func vfModelMergeStructInto(dst, src ygot.GoStruct, opts ...ygot.MergeOpt) error
 			if v.EntryMetadata != nil {
 				cur.EntryMetadata = vfMergeBytes(cur.EntryMetadata, v.EntryMetadata)
 			}
+			if v.DecapsulateHeader != 0 {
+				cur.DecapsulateHeader = v.DecapsulateHeader
+			}
 			continue
 		}
 		c, _ := ygot.DeepCopy(v)
@@ -385,6 +483,9 @@ func vfModelMergeStructInto(dst, src ygot.GoStruct, opts ...ygot.MergeOpt) error
 			if v.EntryMetadata != nil {
 				cur.EntryMetadata = vfMergeBytes(cur.EntryMetadata, v.EntryMetadata)
 			}
+			if v.DecapsulateHeader != 0 {
+				cur.DecapsulateHeader = v.DecapsulateHeader
+			}
 			continue
 		}
 		c, _ := ygot.DeepCopy(v)
@@ -403,6 +504,18 @@ func vfModelMergeStructInto(dst, src ygot.GoStruct, opts ...ygot.MergeOpt) error
 			}
 			if v.EntryMetadata != nil {
 				cur.EntryMetadata = vfMergeBytes(cur.EntryMetadata, v.EntryMetadata)
+			}
+			origPoppedMplsLabelStack := cur.PoppedMplsLabelStack // elements are compared with the destination's ORIGINAL content only
+			for _, l := range v.PoppedMplsLabelStack {
+				found := false
+				for _, x := range origPoppedMplsLabelStack {
+					if x == l {
+						found = true
+					}
+				}
+				if !found {
+					cur.PoppedMplsLabelStack = append(cur.PoppedMplsLabelStack, l)
+				}
 			}
 			continue
 		}
@@ -456,6 +569,47 @@ func vfModelMergeStructInto(dst, src ygot.GoStruct, opts ...ygot.MergeOpt) error
 			if v.DecapsulateHeader != 0 {
 				cur.DecapsulateHeader = v.DecapsulateHeader
 			}
+			if v.IpAddress != nil {
+				cur.IpAddress = vfStrp(*v.IpAddress)
+			}
+			if v.MacAddress != nil {
+				cur.MacAddress = vfStrp(*v.MacAddress)
+			}
+			if v.InterfaceRef != nil {
+				if cur.InterfaceRef == nil {
+					cur.InterfaceRef = &aft.Afts_NextHop_InterfaceRef{}
+				}
+				if v.InterfaceRef.Interface != nil {
+					cur.InterfaceRef.Interface = vfStrp(*v.InterfaceRef.Interface)
+				}
+				if v.InterfaceRef.Subinterface != nil {
+					u := *v.InterfaceRef.Subinterface
+					cur.InterfaceRef.Subinterface = &u
+				}
+			}
+			if v.IpInIp != nil {
+				if cur.IpInIp == nil {
+					cur.IpInIp = &aft.Afts_NextHop_IpInIp{}
+				}
+				if v.IpInIp.SrcIp != nil {
+					cur.IpInIp.SrcIp = vfStrp(*v.IpInIp.SrcIp)
+				}
+				if v.IpInIp.DstIp != nil {
+					cur.IpInIp.DstIp = vfStrp(*v.IpInIp.DstIp)
+				}
+			}
+			origPushedMplsLabelStack := cur.PushedMplsLabelStack // elements are compared with the destination's ORIGINAL content only
+			for _, l := range v.PushedMplsLabelStack {
+				found := false
+				for _, x := range origPushedMplsLabelStack {
+					if x == l {
+						found = true
+					}
+				}
+				if !found {
+					cur.PushedMplsLabelStack = append(cur.PushedMplsLabelStack, l)
+				}
+			}
 			continue
 		}
 		c, _ := ygot.DeepCopy(v)
@@ -477,6 +631,7 @@ func vfModelConcreteIPv4Proto(e *aft.Afts_Ipv4Entry) (*aftpb.Afts_Ipv4EntryKey, 
 	if e.EntryMetadata != nil {
 		p.EntryMetadata = &wpb.BytesValue{Value: append([]byte{}, e.EntryMetadata...)}
 	}
+	p.DecapsulateHeader = enums.OpenconfigAftTypesEncapsulationHeaderType(e.DecapsulateHeader)
 	return &aftpb.Afts_Ipv4EntryKey{Prefix: *e.Prefix, Ipv4Entry: p}, nil
 }
 
@@ -491,6 +646,7 @@ func vfModelConcreteIPv6Proto(e *aft.Afts_Ipv6Entry) (*aftpb.Afts_Ipv6EntryKey, 
 	if e.EntryMetadata != nil {
 		p.EntryMetadata = &wpb.BytesValue{Value: append([]byte{}, e.EntryMetadata...)}
 	}
+	p.DecapsulateHeader = enums.OpenconfigAftTypesEncapsulationHeaderType(e.DecapsulateHeader)
 	return &aftpb.Afts_Ipv6EntryKey{Prefix: *e.Prefix, Ipv6Entry: p}, nil
 }
 
@@ -509,6 +665,13 @@ func vfModelConcreteMPLSProto(e *aft.Afts_LabelEntry) (*aftpb.Afts_LabelEntryKey
 	if e.EntryMetadata != nil {
 		p.EntryMetadata = &wpb.BytesValue{Value: append([]byte{}, e.EntryMetadata...)}
 	}
+	for _, l := range e.PoppedMplsLabelStack {
+		u, ok := l.(aft.UnionUint32)
+		if !ok {
+			return nil, errors.New("unsupported popped label type")
+		}
+		p.PoppedMplsLabelStack = append(p.PoppedMplsLabelStack, &aftpb.Afts_LabelEntry_PoppedMplsLabelStackUnion{PoppedMplsLabelStackUint64: uint64(u)})
+	}
 	return &aftpb.Afts_LabelEntryKey{Label: &aftpb.Afts_LabelEntryKey_LabelUint64{LabelUint64: uint64(l)}, LabelEntry: p}, nil
 }
 
@@ -524,6 +687,37 @@ func vfModelConcreteNextHopProto(e *aft.Afts_NextHop) (*aftpb.Afts_NextHopKey, e
 	}
 	p.EncapsulateHeader = enums.OpenconfigAftTypesEncapsulationHeaderType(e.EncapsulateHeader)
 	p.DecapsulateHeader = enums.OpenconfigAftTypesEncapsulationHeaderType(e.DecapsulateHeader)
+	if e.IpAddress != nil {
+		p.IpAddress = &wpb.StringValue{Value: *e.IpAddress}
+	}
+	if e.MacAddress != nil {
+		p.MacAddress = &wpb.StringValue{Value: *e.MacAddress}
+	}
+	if r := e.InterfaceRef; r != nil && (r.Interface != nil || r.Subinterface != nil) {
+		p.InterfaceRef = &aftpb.Afts_NextHop_InterfaceRef{}
+		if r.Interface != nil {
+			p.InterfaceRef.Interface = &wpb.StringValue{Value: *r.Interface}
+		}
+		if r.Subinterface != nil {
+			p.InterfaceRef.Subinterface = &wpb.UintValue{Value: uint64(*r.Subinterface)}
+		}
+	}
+	if t := e.IpInIp; t != nil && (t.SrcIp != nil || t.DstIp != nil) {
+		p.IpInIp = &aftpb.Afts_NextHop_IpInIp{}
+		if t.SrcIp != nil {
+			p.IpInIp.SrcIp = &wpb.StringValue{Value: *t.SrcIp}
+		}
+		if t.DstIp != nil {
+			p.IpInIp.DstIp = &wpb.StringValue{Value: *t.DstIp}
+		}
+	}
+	for _, l := range e.PushedMplsLabelStack {
+		u, ok := l.(aft.UnionUint32)
+		if !ok {
+			return nil, errors.New("unsupported pushed label type")
+		}
+		p.PushedMplsLabelStack = append(p.PushedMplsLabelStack, &aftpb.Afts_NextHop_PushedMplsLabelStackUnion{PushedMplsLabelStackUint64: uint64(u)})
+	}
 	return &aftpb.Afts_NextHopKey{Index: *e.Index, NextHop: p}, nil
 }
 
